@@ -21,8 +21,8 @@ LEVEL_TEXT = ("Coq theorems over an executable model of the labelled dense matri
 LEVEL_NOTE = ("trusted: Coq kernel + vm_compute; the hand-written model of numpy.take/delete/insert/append/concatenate/lexsort/unique "
               "(index plans + gather), validated only differentially on the generated histories; the two ast translators; the harness "
               "encoding of label values as integers (names <-> codes, k/8 floats, bools) and the rounding of DenseBreedingValueMatrix.unscale(); "
-              "not proved: block-diagonal adjoin/append of the square classes and the Rep-refinement of the genotyping protocols (covered by the "
-              "correspondence and the predicate only); DenseBreedingValueMatrix is observed through unscale() and only along the taxa axis "
+              "not proved: the Rep-refinement (cells/labels) of the genotyping protocols and histories mixing binary operations (each binary step has "
+              "its own theorem; the operand hypotheses are per step) - covered by the correspondence and the predicate; DenseBreedingValueMatrix is observed through unscale() and only along the taxa axis "
               "(scaling is C15); DenseCoancestryMatrix is abstract and exercised through DenseMolecularCoancestryMatrix")
 TECHNIQUE = "Coq proof (refinement to entity lists, invariants over histories) over an executable model; in-Coq vm_compute correspondence of operation histories; ast translation validation"
 RULE = ("case = (class, initial matrix given by entity ids per axis + which label arrays exist, operation history, label table); one PRNG; "
